@@ -123,6 +123,15 @@ def build(desc):
             # SAME name at its real place - the name -> node index map is the same as before, the wiring is not
             c = [c for c in comps if c["name"] == moved["x"]][0]
             quiet_call(sys.solve)
+            if moved.get("presave"):
+                # ... and saved once (an autosave): whatever save() remembers must not survive the move
+                import tempfile, os
+                fd, tmpf = tempfile.mkstemp(suffix=".json", prefix="presave-")
+                os.close(fd)
+                try:
+                    quiet_call(sys.save, tmpf)
+                finally:
+                    os.unlink(tmpf)
             sys.del_comp(c["name"])
             moved["_done"] = True
             try:
